@@ -13,8 +13,9 @@ From the AST of `GlobalPlacer::runLB` (src/place_global/place_global.cpp):
     members it is given), anything else.
 
 Mutable static storage: every object file of the library is compiled (without sanitizers, without
-the verification guard) and `nm` lists the symbols in writable data sections (.data/.bss, including
-function-local statics, static data members and their guard variables); libstdc++'s
+the verification guard) and `nm` lists the symbols in writable data sections (.data/.bss/.tbss, including
+function-local statics - reported as `<file>: <function>()::<name>` -, static data members, statics of inline
+functions / templates and their guard variables); libstdc++'s
 `std::__ioinit` (the <iostream> initialiser object, touched only during static initialisation) is
 the single whitelisted name.  `mutable` members: FieldDecls with the `mutable` flag in any
 `namespace coloquinte` block, plus a textual scan of every file under src/ for the keyword.
@@ -177,7 +178,7 @@ def runlb_facts():
 
 def static_symbols():
     """Writable static-storage symbols of the library objects (cached by source digest)."""
-    key = C.tree_hash(C.repo_sources(), "async-syms-v1")
+    key = C.tree_hash(C.repo_sources(), "async-syms-v2")
     cache = os.path.join(C.CACHE, "async-syms-%s.json" % key)
     if os.path.exists(cache):
         return json.load(open(cache))
@@ -200,7 +201,9 @@ def static_symbols():
             if not m:
                 continue
             ty, name = m.group(1), m.group(2)
-            if ty not in "bBdDuCsSgG":   # writable data / bss / unique globals / common / small data
+            # writable data / bss / unique globals (statics of inline functions and templates) / common / small
+            # data / weak objects (what `u` becomes on toolchains without GNU_UNIQUE); TLS symbols are b/B/d/D too
+            if ty not in "bBdDuCsSgGvV":
                 continue
             if name.startswith(("DW.ref.", "vtable for", "typeinfo ", "VTT for", "construction vtable")):
                 continue
